@@ -103,6 +103,9 @@ func newSched(shared bool) *sched {
 
 func (s *sched) ScheduleTimer(d time.Duration, cb func()) centrifuge.TimerCanceler {
 	s.scheduled.Add(1)
+	if d <= 0 {
+		d = 1 // see onFrame: never arm a bubbled timer that is already due
+	}
 	t := time.AfterFunc(d, func() {
 		s.fired.Add(1)
 		if !s.shared {
@@ -377,7 +380,11 @@ func (st *cstate) onFrame(f kit.Frame) {
 	case idx == st.StopAt && st.LatePong > 0:
 		d = st.T + st.LatePong
 	}
-	if d >= 0 && !st.stopped {
+	if d == 0 && !st.stopped {
+		// not time.AfterFunc(0, ..): a bubbled timer that is due immediately runs on the
+		// caller's system stack and has crashed the go1.26 runtime under -race
+		go st.pong()
+	} else if d > 0 && !st.stopped {
 		st.timers = append(st.timers, time.AfterFunc(d, st.pong))
 	}
 	st.mu.Unlock()
@@ -464,7 +471,11 @@ var kinds = []string{
 
 // gridAround proposes an instant for a refresh relative to the model window [lo, hi]
 // (lo = earliest legal termination + margin, i.e. deadline; hiExtra = tick slack).
-func gridAround(r *kit.Rand, prev, deadline, hiExtra time.Duration) (time.Duration, string) {
+func gridAround(r *kit.Rand, prev, deadline, hiExtra, timerAt time.Duration) (time.Duration, string) {
+	if timerAt > prev && r.Chance(1, 6) {
+		// the very instant the library's expire timer fires (known from the instant it was armed)
+		return timerAt, "at-timer"
+	}
 	switch r.Intn(10) {
 	case 0, 1:
 		return prev + (deadline-margin-prev)/2, "well-before"
@@ -538,13 +549,13 @@ func (x *cworld) genConn(idx int) *cstate {
 		}
 		return st
 	case st.Kind == "pong":
-		prelude = r.Chance(1, 16)
+		prelude = r.Chance(1, 40)
 		st.StopAt = r.Range(-1, 3)
 		if st.StopAt >= 0 && r.Chance(1, 3) {
 			st.LatePong = ms(10)
 		}
 	case strings.HasPrefix(st.Kind, "sub"):
-		prelude = r.Chance(1, 16)
+		prelude = r.Chance(1, 40)
 	}
 	x.at(st.ConnectAt, st.connect)
 
@@ -590,6 +601,7 @@ func (x *cworld) genConn(idx int) *cstate {
 		}
 		curExp := st.Exp0
 		prev := t0
+		armed := t0 // instant the expire timer was last (re)armed
 		switch st.ExpMode {
 		case "server-handler":
 			if r.Chance(1, 5) {
@@ -615,7 +627,8 @@ func (x *cworld) genConn(idx int) *cstate {
 		last := x.absOf(curExp) + gHi
 		for i := 0; i < nRef; i++ {
 			dl := x.absOf(curExp) + gLo
-			at, _ := gridAround(r, prev, dl, gHi-gLo)
+			timerAt := armed + time.Duration(curExp-x.unixAt(armed))*time.Second + gHi
+			at, _ := gridAround(r, prev, dl, gHi-gLo, timerAt)
 			if at <= prev+ms(5) {
 				at = prev + ms(r.Range(6, 900))
 			}
@@ -654,9 +667,10 @@ func (x *cworld) genConn(idx int) *cstate {
 				last = at
 				break
 			}
-			if at < dl+margin+sec(1) && st.ExpMode != "client-nohandler" {
+			if at < dl+margin+sec(1) {
 				curExp = ev.NewExp
 				gLo, gHi = ev.GraceLo, ev.GraceHi
+				armed = at
 			}
 			if l := x.absOf(ev.NewExp) + x.DC; l > last {
 				last = l
@@ -722,7 +736,7 @@ func (x *cworld) genConn(idx int) *cstate {
 			prev := sp.SubAt
 			for i, n := 0, r.Range(0, 3); i < n; i++ {
 				dl := x.absOf(curExp) + x.DS
-				at, _ := gridAround(r, prev, dl, hiExtra)
+				at, _ := gridAround(r, prev, dl, hiExtra, -1)
 				if at <= prev+ms(5) {
 					at = prev + ms(r.Range(6, 900))
 				}
@@ -877,6 +891,10 @@ func (st *cstate) evalExpiry(name string, exp0 int64, gLo, gHi, hiExtra time.Dur
 		c.Count(name+"_refresh_applied", 1)
 	}
 	if exp == 0 {
+		if term.happened && altHi >= 0 && term.at >= altLo && term.at <= altHi {
+			c.Count(name+"_expired_while_refresh_in_ambiguous_window_was_acknowledged", 1)
+			return "expired"
+		}
 		if term.happened {
 			c.Violation("c36-"+name+"-terminated-without-expiry", fmt.Sprintf("conn %d: %s ended with the expired code at %s although it has no expiration", st.Idx, name, term.at), st.detail(nil))
 			return "violation"
@@ -1048,10 +1066,7 @@ func (st *cstate) evaluate(end time.Duration) string {
 	// --- no pong
 	tp := term(codeNoPong)
 	t0 := st.ConnectAt
-	tol := st.T / 4
-	if tol > sec(1) {
-		tol = sec(1)
-	}
+	tol := ms(2) // ping and pong timers use exact durations: the virtual clock shows them to the nanosecond
 	if tp.happened {
 		// whatever the plan: a no-pong close needs a ping whose timeout has run out
 		last := -1
@@ -1108,20 +1123,37 @@ func (st *cstate) evaluate(end time.Duration) string {
 		}
 	}
 
+	// A client-side sub-refresh command answered Expired is not acknowledged: the whole
+	// connection is closed with 3005 at that instant (SubRefreshReply.Expired in events.go).
+	// That close is the termination of the subscription expiry, not a connection expiry.
+	var subExpClose termObs
+	if closed && code == codeExpired && st.Sub != nil && !st.Sub.ServerSide {
+		for _, ev := range st.subEvs {
+			if !ev.Server && ev.Expired && ev.Acked && closedAt >= ev.At-ms(1) && closedAt <= ev.At+sec(1) {
+				subExpClose = termObs{true, closedAt, code}
+			}
+		}
+	}
+	connTerm := term(codeExpired)
+	if subExpClose.happened {
+		connTerm = termObs{}
+		c.Count("sub_expiry_connection_closed_3005_by_expired_sub_refresh_reply", 1)
+	}
+
 	// --- connection expiry
 	if st.Exp0 != 0 {
 		gLo, gHi := time.Duration(0), time.Duration(0)
 		if strings.HasPrefix(st.ExpMode, "client") {
 			gLo, gHi = x.DC, x.DC
 		}
-		res := st.evalExpiry("conn-expiry", st.Exp0, gLo, gHi, 0, st.connEvs, term(codeExpired), horizon)
+		res := st.evalExpiry("conn-expiry", st.Exp0, gLo, gHi, 0, st.connEvs, connTerm, horizon)
 		if res == "violation" {
 			return res
 		}
 		c.Count("conn_expiry_"+res, 1)
 		c.Count("conn_expiry_mode_"+st.ExpMode, 1)
 		out = append(out, "conn-"+res)
-	} else if te := term(codeExpired); te.happened {
+	} else if te := connTerm; te.happened {
 		c.Violation("c36-conn-expiry-terminated-without-expiry", fmt.Sprintf("conn %d without expiration closed with the expired code at %s", st.Idx, te.at), st.detail(nil))
 		return "violation"
 	}
@@ -1174,6 +1206,9 @@ func (st *cstate) evaluate(end time.Duration) string {
 				return "violation"
 			}
 			ts = tu
+			if !tu.happened && subExpClose.happened {
+				ts = subExpClose
+			}
 		}
 		subHorizon := horizon
 		res := st.evalExpiry("sub-expiry", sp.Exp, x.DS, x.DS, hiExtra, st.subEvs, ts, subHorizon)
@@ -1295,8 +1330,8 @@ func TestC36(t *testing.T) {
 	kit.Main(t, kit.Spec{
 		ID:     "C36",
 		Bubble: true,
-		Rule: "one virtual-time bubble per case: a node with random ClientStaleCloseDelay {2,5,15(default),40}s, ClientExpiredCloseDelay / ClientExpiredSubCloseDelay {3,4,12,25(default)}s, ClientPresenceUpdateInterval {1,3,8,25(default)}s, default timers or a harness TimerScheduler (time.AfterFunc in the bubble; callbacks run directly or on one shared worker goroutine), and 3-6 connections (JSON/Protobuf), each with one scenario: stale (never connects / connects before or just after the delay / connect rejected), pong (ping interval 2-25 s and pong timeout 0.5-10 s from the transport or ConnectReply.PingPongConfig; pongs after 0, 1 ms, T/2, T-10 ms; stops at ping #k, optionally a late pong at T+10 ms), connection expiry (client-side refresh with/without OnRefresh, server-side OnRefresh handler extending n times then Expired, no handler; client refresh commands, Client.Refresh and Node.Refresh on a grid around the deadline: midway, -2 s, -500 ms, -10 ms, +10 ms, +<1 s, +3 s; ExpireAt 0 and Expired variants), subscription expiry (client-side subscription with client-side sub-refresh on the same grid, server-driven OnSubRefresh, no handler; server-side subscription from ConnectReply.Subscriptions or Client.Subscribe, with/without OnSubRefresh). One in 16 of the pong/subscription scenarios start with an expiring connection switched to no-expiration by a server-side refresh. " +
-			"Oracle (timing model, per connection): the instant and code of transport.Close and of unsubscribe pushes are recorded on the virtual clock; stale => 3502 at create+delay (+-1 s) unless authenticated before; no pong => 3012 at (unanswered ping)+timeout (+-1 s), never when every ping was answered in time; expiry => walking the acknowledged refreshes, termination (3005 / unsubscribe push 2501 / 3006 for server-side subscriptions) must fall in [expire_at+grace-2 s, expire_at+grace+2 s (+1 s + one presence interval for subscriptions)], a refresh at or before the lower bound must be acknowledged and the connection/subscription must outlive it; refreshes inside the window may go either way (the oracle follows the acknowledgement). Signature = scheduler + sorted per-connection outcomes.",
+		Rule: "one virtual-time bubble per case: a node with random ClientStaleCloseDelay {2,5,15(default),40}s, ClientExpiredCloseDelay / ClientExpiredSubCloseDelay {3,4,12,25(default)}s, ClientPresenceUpdateInterval {1,3,8,25(default)}s, default timers or a harness TimerScheduler (time.AfterFunc in the bubble; callbacks run directly or on one shared worker goroutine), and 3-6 connections (JSON/Protobuf), each with one scenario: stale (never connects / connects before or just after the delay / connect rejected), pong (ping interval 2-25 s and pong timeout 0.5-10 s from the transport or ConnectReply.PingPongConfig; pongs after 0, 1 ms, T/2, T-10 ms; stops at ping #k, optionally a late pong at T+10 ms), connection expiry (client-side refresh with/without OnRefresh, server-side OnRefresh handler extending n times then Expired, no handler; client refresh commands, Client.Refresh and Node.Refresh on a grid around the deadline: midway, -2 s, -500 ms, -10 ms, +10 ms, +<1 s, +3 s, and the exact instant the expire timer fires; ExpireAt 0 and Expired variants), subscription expiry (client-side subscription with client-side sub-refresh on the same grid, server-driven OnSubRefresh, no handler; server-side subscription from ConnectReply.Subscriptions or Client.Subscribe, with/without OnSubRefresh). One in 40 of the pong/subscription scenarios start with an expiring connection switched to no-expiration by a server-side refresh. " +
+			"Oracle (timing model, per connection): the instant and code of transport.Close and of unsubscribe pushes are recorded on the virtual clock; stale => 3502 at create+delay (+-1 s) unless authenticated before; no pong => 3012 at (unanswered ping)+timeout (-2 ms/+1 s), never before the timeout of the last ping ran out, never when every ping was answered in time; expiry => walking the acknowledged refreshes, termination (3005 / unsubscribe push 2501 / 3006 for server-side subscriptions; a client-side sub-refresh answered Expired must end the subscription at once, by closing the connection with 3005 as documented or by the unsubscribe push, and that close is not judged as a connection expiry) must fall in [expire_at+grace-2 s, expire_at+grace+2 s (+1 s + one presence interval for subscriptions)], a refresh at or before the lower bound must be acknowledged and the connection/subscription must outlive it; refreshes inside the window may go either way (the oracle follows the acknowledgement). Signature = scheduler + sorted per-connection outcomes.",
 		Assumptions: []string{
 			"deadlines are compared with a 2 s margin (plus 1 s + one presence interval for tick-driven subscription expiry): an off-by-one-second error in the Unix-second arithmetic is not detected by design",
 			"after Client.Refresh/Node.Refresh on a server-side-refresh connection the close may come anywhere between expire_at and expire_at+ClientExpiredCloseDelay (the delay is documented for the client-side workflow only, the code applies it)",
